@@ -66,6 +66,8 @@ labels through `crun`, a line whose labels are not enabled answers `error`):
   `bgsnap` → `snap keys=…` (periodic goroutine takes the pending tick and snapshots); `bgfinish` → `ok`
   `stop` → `ok` (stopCall, bgExit, stopReturn)
   `stopcall id=<n>` → `returned` | `blocked` (a concurrent Stop caller); `stopwait id=<n>` → `ok`
+  `sbegin id= k= v= ttl=` → `ok` (a Set parked after its clock read); `send id= k= v= ttl=` → `ok` (its store)
+  `gbegin id= k=` → `ok` (a Get parked after its map read); `gend id= k=` → `hit v=` | `miss` (its clock read)
 -/
 
 def sortStrings (xs : List String) : List String :=
@@ -84,6 +86,14 @@ def parseReq (l : Line) : Option Req :=
   | "get" => do let k ← l.get? "k"; pure (.get k)
   | "del" => do let k ← l.get? "k"; pure (.del k)
   | "adv" => do let d ← l.nat? "d"; pure (.adv d)
+  | "sbegin" => do
+      let id ← l.nat? "id"; let k ← l.get? "k"; let v ← l.nat? "v"; let ttl ← l.int? "ttl"
+      pure (.sbegin id k v ttl)
+  | "send" => do
+      let id ← l.nat? "id"; let k ← l.get? "k"; let v ← l.nat? "v"; let ttl ← l.int? "ttl"
+      pure (.send id k v ttl)
+  | "gbegin" => do let id ← l.nat? "id"; let k ← l.get? "k"; pure (.gbegin id k)
+  | "gend" => do let id ← l.nat? "id"; let k ← l.get? "k"; pure (.gend id k)
   | "cbegin" => do
       let id ← l.nat? "id"; let kind ← l.get? "kind"
       if kind == "cleanup" then pure (.cbegin id false)
